@@ -23,7 +23,7 @@ class C18(C.PipelineCheck):
     def bounds(self, tier):
         q = tier != 'thorough'
         return {'mapping': 'one entry N -> {string, number, boolean}; N is a symbolic identifier (3 characters) either plain or with one symbolic generic argument (N<G>); '
-                           'a second entry for an unrelated name; a look-alike unmapped type whose name extends N',
+                           'a second entry for an unrelated name; look-alike unmapped types whose names extend N at the end (Nx) and at the front (XN)',
                 'positions': 'N under every constructor-context chain of depth <=%d from {%s} at each of the five sites, both modes' % (1 if q else 2, ', '.join(QUICK_CTX)),
                 'relation': 'mapped run: every position denotes the target; N is neither declared nor referenced; unmapped run of the same project: every declaration that does '
                             'not mention N is textually identical'}
@@ -94,7 +94,8 @@ class C18(C.PipelineCheck):
                 raise PathAbort()
             tgt = ('string', 'number', 'boolean')[e.choose(3)]
             n = C.sym_type_ident('n', 3)
-            holes = {'n': n}
+            # look-alikes: unmapped project types whose names extend N at the end (Nx) and at the front (XN)
+            holes = {'n': n, 'nx': Str(n.cs + (ord('x'),)), 'xn': Str((ord('X'),) + n.cs)}
             for w in ('Vec', 'Box', 'Map', 'Set', 'Bar', 'Any'):
                 e.assume(z_not(V.str_eq(n, Str(w))))
             if form == 'generic':
@@ -112,7 +113,9 @@ class C18(C.PipelineCheck):
             ty = S.rust_text(sk)
             # look-alike: an unmapped project type whose name extends N (Nx) -- must be left alone
             look = 'HOLE_nx'
-            src = self.project(site, ty, 'Option<%s>' % look) + '#[derive(Serialize, Deserialize)]\npub struct %s { pub v: i32 }\n' % look
+            near = 'Option<%s>, pub far: Vec<HOLE_xn>' % look
+            decls = '#[derive(Serialize, Deserialize)]\npub struct %s { pub v: i32 }\n#[derive(Serialize, Deserialize)]\npub struct HOLE_xn { pub w: bool }\n' % look
+            src = self.project(site, ty, near) + decls
             e.cover('lookalike')
             mapping = HMap([[key, Str(tgt)], [Str('Unrelated'), Str('number')]])
             cfg = {'validation_library': mode, 'type_mappings': Some(mapping)}
@@ -127,7 +130,7 @@ class C18(C.PipelineCheck):
             # reference: the same project with the target's Rust primitive written in place of N and no mapping
             # (so the rendering of the surrounding constructors, which is C05/C10's business, cancels out)
             prim = {'string': 'String', 'number': 'f64', 'boolean': 'bool'}[tgt]
-            src3 = self.project(site, S.rust_text(skeleton(chain, ('prim', prim))), 'Option<%s>' % look) + '#[derive(Serialize, Deserialize)]\npub struct %s { pub v: i32 }\n' % look
+            src3 = self.project(site, S.rust_text(skeleton(chain, ('prim', prim))), near) + decls
             run3 = PL.run_model(I, PL.Project({'src/main.rs': src3}, holes, {'validation_library': mode}))
             try:
                 want = self.emitted_shape(site, mode, run3.outputs) if run3.result.var == 'Ok' else S.norm(_denote_with(sk, TARGETS[tgt]))
@@ -164,8 +167,8 @@ class C18(C.PipelineCheck):
                 for fname in ('types.ts',):
                     b1 = blocks(run.outputs[fname])
                     b2 = blocks(run2.outputs[fname])
-                    keep1 = [b for b in b1 if _mentions(b, 'Keep') or _mentions_sym(e, b, n, 'x')]
-                    keep2 = [b for b in b2 if _mentions(b, 'Keep') or _mentions_sym(e, b, n, 'x')]
+                    keep1 = [b for b in b1 if _mentions(b, 'Keep') or _mentions_sym(e, b, n, 'x') or _mentions_sym(e, b, holes['xn'], '')]
+                    keep2 = [b for b in b2 if _mentions(b, 'Keep') or _mentions_sym(e, b, n, 'x') or _mentions_sym(e, b, holes['xn'], '')]
                     keep1 = [b for b in keep1 if not _mentions(b, 'CmdParams') and not _mentions(b, 'Bar')]
                     keep2 = [b for b in keep2 if not _mentions(b, 'CmdParams') and not _mentions(b, 'Bar')]
                     e.cover('unmapped-unchanged')
@@ -326,7 +329,8 @@ def _mentions_sym(e, block, n, suffix):
     cs = block.cs
     k = len(n.cs)
     for i in range(len(cs) - k):
-        if all(cs[i + j] is n.cs[j] for j in range(k)) and isinstance(cs[i + k], int) and chr(cs[i + k]) == suffix:
+        if all((cs[i + j] is n.cs[j]) or (isinstance(cs[i + j], int) and cs[i + j] == n.cs[j]) for j in range(k)) and \
+                (suffix == '' or (isinstance(cs[i + k], int) and chr(cs[i + k]) == suffix)):
             return True
     return False
 
